@@ -93,8 +93,6 @@ def gen(d, tier):
 def oracle(s, t):
     if not t.ok:
         return ("crash", "world died: %s" % t.crash)
-    if t.xviol:
-        return ("world-invariant", str(t.xviol[:3]))
     if t.reason != "quiescent":
         return ("no-quiescence", "run ended with reason %s after %d steps (input pos %d of %d)" % (t.reason, t.q["steps"], t.q["inpos"], len(s["input"])))
     lines, tail = ref.split_lines(s["input"])
